@@ -1350,6 +1350,14 @@ def illformed_family():
     for nb in nullable:
         for rp in reps:
             out.append(gen.Grammar([N("seq", [rp(nb()), N("opt", [N("any")])])]))
+    # rule identity: two different rules whose printed names share everything up to a ';' character argument (the analysis keys
+    # rules by demangle<>() text; a name cut at that character would merge them)
+    for nb in nullable:
+        P = lambda: N("one", s=";")
+        g = gen.Grammar([N("seq", [N("opt", [N("sor", [P(), X()])]), N("star", [N("sor", [P(), nb()])]), N("opt", [N("any")])])], alphabet="a;b")
+        out.append(g)
+        g = gen.Grammar([N("seq", [N("opt", [N("seq", [P(), X()])]), N("plus", [N("seq", [P(), Y()]), ]), N("star", [N("seq", [N("opt", [P()]), nb()])])])], alphabet="a;b")
+        out.append(g)
     # raw_string contents are repeated until the closing bracket: nullable contents loop
     for nb in nullable:
         g = gen.Grammar([N("sor", [N("raw_string", [nb()], omc="[=]"), N("any")])], alphabet="[]a=", maxlen=(4, 5))
@@ -1405,7 +1413,7 @@ def plan_c11(tier, seed, workdir, case):
         return [Run(ts[0], args=["--prop", "C11"])]
     q = tier == "quick"
     G = gen.Gen(seed * 1000 + 97, ops=C11_OPS, max_depth=3 if q else 4, nrules=(1, 4),
-                atoms=["any", "one", "one2", "not_one", "range", "string2", "eof", "success", "failure", "ab", "success", "bof", "eolf"])
+                atoms=["any", "one", "one2", "not_one", "range", "string2", "eof", "success", "failure", "ab", "success", "bof", "eolf", "punct_one"])
     gs = []
     for _ in range(250 if q else 3000):
         gs.append(G.grammar_unfiltered())
